@@ -329,4 +329,11 @@ theorem sim_run : ∀ (segs : List Str) (s : St) (l : Nat), s.limit ≤ l → Ev
 
 end
 
+/-! ### concrete inputs for the non-vacuity examples in Props.lean -/
+
+def smallCfg : Cfg := { maxBody := 3, overrides := [some 5] }
+def fiveByteReq : Str :=
+  [80, 32, 47, 32, 72, 84, 84, 80, 47, 49, 46, 49, 10, 72, 111, 115, 116, 58, 120, 10, 67, 111, 110, 116, 101, 110, 116, 45,
+   76, 101, 110, 103, 116, 104, 58, 53, 10, 10, 1, 2, 3, 4, 5]
+
 end TornadoModel.C04
